@@ -138,6 +138,16 @@ fn templates() -> Vec<(&'static str, Program)> {
         print_of(var("n0")),
     ]));
     v.push(("single-statement-scopes", Program { tops }));
+    // T6: globals whose initialiser is not a function but contains scopes with locals of their own: branch blocks of
+    // an if / case value, a function literal that is called at once, a closure stored in a tuple
+    let mut tops = header();
+    tops.push(Top::Def { name: "n0".into(), mutable: false, ty: None, value: int(3) });
+    tops.push(Top::Def { name: "n1".into(), mutable: false, ty: None, value: if_e(bin(BinOp::Gt, var("n0"), int(1)), vec![def("n2", add(var("n0"), int(10))), Stmt::Expr(bin(BinOp::Mul, var("n2"), int(2)))], Some(vec![def("n3", int(7)), Stmt::Expr(var("n3"))])) });
+    tops.push(Top::Def { name: "n4".into(), mutable: false, ty: None, value: Expr::Case(Box::new(e_a(var("n0"))), vec![CaseArm { variant: "A".into(), bind: Some("n5".into()), body: vec![def("n6", add(var("n5"), int(1))), Stmt::Expr(var("n6"))] }], Some(vec![Stmt::Expr(int(0))])) });
+    tops.push(Top::Def { name: "n7".into(), mutable: false, ty: None, value: call(Expr::Paren(Box::new(lambda(vec![], RetAnn::Ty(Ty::Int), vec![def("n8", add(var("n0"), int(100))), Stmt::Expr(var("n8"))]))), vec![]) });
+    tops.push(Top::Def { name: "n9".into(), mutable: false, ty: None, value: Expr::Tuple(vec![lambda(vec![], RetAnn::Ty(Ty::Int), vec![def("n2", int(40)), Stmt::Expr(add(var("n2"), var("n0")))]), int(1)]) });
+    tops.push(start_fn(vec![print_of(var("n1")), print_of(var("n4")), print_of(var("n7")), print_of(call(Expr::Index(Box::new(var("n9")), 0), vec![]))]));
+    v.push(("scopes-inside-global-initialisers", Program { tops }));
     v
 }
 
